@@ -119,14 +119,18 @@ public:
                 }
                 settle();
             };
-            auto checkDisconnectedState = [&](const QString &where) {
+            auto checkDisconnectedState = [&](const QString &where, bool orderlyEndOfSession = false) {
                 if (w.client->state() != QXmppClient::DisconnectedState || w.client->isConnected() || w.client->isAuthenticated()) {
                     w.violation(QStringLiteral("inconsistent_after_loss"), QStringLiteral("C10:not_disconnected_after_loss:") + where,
                                 QStringLiteral("after the connection was lost: state=%1 isConnected=%2 isAuthenticated=%3")
                                     .arg((int)w.client->state()).arg(w.client->isConnected()).arg(w.client->isAuthenticated()));
                 }
-                // outstanding requests: completed (with an error) unless the session is resumable
-                if (!w.client->smCanResume()) {
+                // outstanding requests: completed (with an error) unless the session is resumable. An established session whose
+                // stream the server closed in an orderly way is not resumable whatever the library thinks (XEP-0198 section 5)
+                if (orderlyEndOfSession) {
+                    w.probe("session_ended_by_orderly_close");
+                }
+                if (orderlyEndOfSession || !w.client->smCanResume()) {
                     for (const auto &t : iqs) {
                         if (t->fired == 0) {
                             w.violation(QStringLiteral("request_left_pending"), QStringLiteral("C10:iq_pending_after_nonresumable_loss:") + where,
@@ -310,7 +314,8 @@ public:
                         // a new connection was started synchronously (redirect, or next address of the list)
                         w.probe("reconnect_started_synchronously");
                     } else {
-                        checkDisconnectedState(where + (established ? QStringLiteral(":session") : QStringLiteral(":negotiation")));
+                        checkDisconnectedState(where + (established ? QStringLiteral(":session") : QStringLiteral(":negotiation")),
+                                               established && (where == QLatin1String("server_close") || where == QLatin1String("stream_end")));
                     }
                 } else if (op.kind == QLatin1String("expire")) {
                     w.fault("server_expired_sm_sessions");
